@@ -331,6 +331,37 @@ func rulePDF417Arith(c *Ctx) {
 						}
 						c.Check(RN, "pdf417.encodeNumeric/fresh-per-chunk", p.Pos(), fresh, "the chunk's codeword list starts empty for every chunk", n.Norm(e).String())
 					}
+					// every codeword that enters a chunk's list is a digit of the arbitrary-precision value
+					// (a chunk of 44 digits does not fit any machine integer): the elements added on the
+					// loop's back edges come from math/big, not from fixed-width arithmetic
+					for ei, e := range p.Edges {
+						if !b.Dominates(b.Preds[ei]) {
+							continue
+						}
+						okBig, what := false, n.Norm(e).String()
+						if ap, isCall := e.(*ssa.Call); isCall {
+							if bi, isB := ap.Common().Value.(*ssa.Builtin); isB && bi.Name() == "append" {
+								okBig, what = true, "big.Int digits"
+								for _, arg := range ap.Common().Args {
+									for _, el := range variadicElems(arg) {
+										src := el
+										for {
+											cvt, isC := src.(*ssa.Convert)
+											if !isC {
+												break
+											}
+											src = cvt.X
+										}
+										call, isCall := src.(*ssa.Call)
+										if !isCall || !strings.HasPrefix(calleeFull(call), "(*math/big.Int).") {
+											okBig, what = false, n.Norm(el).String()
+										}
+									}
+								}
+							}
+						}
+						c.Check(RN, "pdf417.encodeNumeric/arbitrary-precision", p.Pos(), okBig, "each codeword added to a chunk's list is read from a math/big value", what)
+					}
 				}
 			}
 			c.Check(RN, "pdf417.encodeNumeric/accumulator", fn.Pos(), found, "per-chunk codeword accumulation", fmt.Sprint(found))
